@@ -41,7 +41,22 @@ func (l *c15Listener) Accept() (net.Conn, error) {
 		return nil, net.ErrClosed
 	}
 }
-func (l *c15Listener) Close() error   { l.once.Do(func() { close(l.closed) }); return nil }
+func (l *c15Listener) Close() error {
+	l.once.Do(func() {
+		close(l.closed)
+		// connections still in the accept queue are reset, as by a real listener
+		for {
+			select {
+			case c := <-l.ch:
+				_ = c.Close()
+			default:
+				return
+			}
+		}
+	})
+
+	return nil
+}
 func (l *c15Listener) Addr() net.Addr { return l.addr }
 func (l *c15Listener) isClosed() bool {
 	select {
@@ -909,6 +924,86 @@ func TestVerif_C15_TwoLocalAddresses(t *testing.T) {
 		st.Record(vfHashStr(desc), closedOne, fmt.Sprintf("closed-one-address:%v", closedOne))
 		if closedOne && st.WantSample() {
 			st.Sample(func() string { return desc })
+		}
+	})
+}
+
+// TestVerif_C15_CloseWithSilentClients: clients that have connected but not (or only partly) sent their first
+// frame, and a first-frame timeout that is long or disabled: Close closes them and returns in bounded time.
+func TestVerif_C15_CloseWithSilentClients(t *testing.T) {
+	st := vfNewStats(t)
+	lf := logging.NewDefaultLoggerFactory()
+	lf.DefaultLogLevel = logging.LogLevelDisabled
+	rapid.Check(t, func(rt *rapid.T) {
+		firstTO := rapid.SampledFrom([]time.Duration{time.Hour, -1, 10 * time.Minute}).Draw(rt, "firstStunBindTimeout")
+		nSilent := rapid.IntRange(1, 4).Draw(rt, "silentClients")
+		partial := rapid.Bool().Draw(rt, "someSendAPartialFrame")
+		withValid := rapid.Bool().Draw(rt, "alsoAValidClient")
+		ln := newC15Listener()
+		mux := NewTCPMuxDefault(TCPMuxParams{Listener: ln, Logger: lf.NewLogger("verif"), ReadBufferSize: 8, FirstStunBindTimeout: firstTO, AliveDurationForConnFromStun: time.Hour})
+		localIP := net.IPv4(10, 0, 0, 1)
+		var clients []*c15Client
+		defer func() {
+			for _, c := range clients {
+				_ = c.conn.Close()
+			}
+		}()
+		connect := func(i int) *c15Client {
+			a, b := net.Pipe()
+			remote := &net.TCPAddr{IP: net.IPv4(198, 51, 100, 9), Port: 42000 + i}
+			cl := &c15Client{id: i, conn: a, remote: remote, kind: "silent", ufrag: "uq", done: make(chan struct{})}
+			go cl.reader()
+			clients = append(clients, cl)
+			ln.ch <- &c15Conn{Conn: b, local: &net.TCPAddr{IP: localIP, Port: 8443}, remote: remote}
+
+			return cl
+		}
+		for i := 0; i < nSilent; i++ {
+			cl := connect(i)
+			if partial && i%2 == 0 {
+				go func() {
+					_ = cl.conn.SetWriteDeadline(time.Now().Add(5 * time.Second))
+					_, _ = cl.conn.Write([]byte{0x00})
+				}()
+			}
+		}
+		if withValid {
+			h, err := mux.GetConnByUfrag("uq", false, localIP)
+			if err == nil {
+				defer h.Close() //nolint:errcheck
+			}
+			cl := connect(100)
+			_ = cl.conn.SetWriteDeadline(time.Now().Add(20 * time.Second))
+			_, _ = cl.conn.Write(c15Frame(c15StunBinding("uq:peer", true, stun.MethodBinding)))
+		}
+		c11Jitter(rapid.IntRange(0, 40).Draw(rt, "jitter"))
+		done := make(chan struct{})
+		t0 := time.Now()
+		go func() { _ = mux.Close(); close(done) }()
+		desc := fmt.Sprintf("firstStunBindTimeout=%s silent=%d partial=%v valid=%v", firstTO, nSilent, partial, withValid)
+		st.Record(vfHashStr(desc), true, fmt.Sprintf("timeout:%s", firstTO))
+		if st.WantSample() {
+			st.Sample(func() string { return desc })
+		}
+		select {
+		case <-done:
+		case <-time.After(10 * time.Second):
+			dead, dump := vfStuck("TCPMuxDefault")
+			// free the mux before failing: the clients hang up
+			for _, c := range clients {
+				_ = c.conn.Close()
+			}
+			if dead {
+				st.Fail(rt, "C15/close/waits-for-silent-clients", "Close has not returned after 10 s with %d connected client(s) that never completed a first frame (%s)\n%s", nSilent, desc, dump)
+			}
+			st.Inconclusive()
+			rt.Fatalf("VERIF-INCONCLUSIVE: Close still running after 10 s (%s)", desc)
+		}
+		_ = t0
+		for _, c := range clients {
+			if !c.closedByPeer(5 * time.Second) {
+				st.Fail(rt, "C15/close/client-connection-left-open", "client %s is still connected after Close returned (%s)", c.remote, desc)
+			}
 		}
 	})
 }
